@@ -217,16 +217,20 @@ func (m *Migrator) setupBeforeRestorer(database db.KeyValueStore, oldestBlockKep
 	if err := wipeStorageHistoryBuckets(batch); err != nil {
 		return fmt.Errorf("wiping storage history buckets: %w", err)
 	}
-	header, err := core.GetBlockHeaderByNumber(database, oldestBlockKept-uint64(1))
-	if err != nil {
-		return fmt.Errorf("getting block header at %d: %w", oldestBlockKept-1, err)
-	}
-	err = core.WriteBlockHeaderNumberByHash(batch, header.Hash, oldestBlockKept-uint64(1))
-	if err != nil {
-		return fmt.Errorf(
-			"writing block header number by hash at %d: %w",
-			oldestBlockKept-1, err,
-		)
+	// With a retention floor of 0 every block is kept: there is no block below the
+	// keeper window whose reverse lookup needs seeding (and oldestBlockKept-1 would wrap).
+	if oldestBlockKept > 0 {
+		header, err := core.GetBlockHeaderByNumber(database, oldestBlockKept-uint64(1))
+		if err != nil {
+			return fmt.Errorf("getting block header at %d: %w", oldestBlockKept-1, err)
+		}
+		err = core.WriteBlockHeaderNumberByHash(batch, header.Hash, oldestBlockKept-uint64(1))
+		if err != nil {
+			return fmt.Errorf(
+				"writing block header number by hash at %d: %w",
+				oldestBlockKept-1, err,
+			)
+		}
 	}
 	if err := batch.Write(); err != nil {
 		return fmt.Errorf("writing batch: %w", err)
